@@ -20,14 +20,16 @@ Per-library reference kind (how the output refers to Lj):
            names Lj and which calls f<j>
   duplib   call e<j>, which an earlier library on the command line may also define
   dupobj   call f<j>, and an input object def<j>.o defines f<j> as well
-Region of each library mention: as-needed or not, written in one of three forms (`toggle`:
+Region of each library mention: as-needed or not, written in one of six forms (three nested
+--push-state forms `nest-inherit`, `nest-inherit-inv`, `nest-restore`: depth-2 regions whose inner
+level must inherit from / restore to the enclosing level; and `toggle`:
 --as-needed / --no-as-needed where the state changes; `pushpop`: --push-state --as-needed L
 --pop-state; `invpushpop`: a leading --as-needed and --push-state --no-as-needed L --pop-state).
 Objects always precede the libraries (GNU ld decides --as-needed "at that point in the link").
 
 Families (sizes are reported in the evidence):
   main     kinds^3 x regions 2^3 x command-line order (3!) x {exe, -shared}, form toggle, by path
-  forms    the two other region forms
+  forms    the five other region forms
   naming   kinds {none, strong, weak}^3 x {libL (soname), libN (no soname)} x named by
            {path, ./path, -L. -l} x regions x orders
   twice    L1 named twice around L2 (second time by the same path, by ./path or by -l), each
@@ -64,7 +66,7 @@ KINDS = ["none", "strong", "weak", "data", "viadep", "duplib", "dupobj"]
 NEXT = {1: 2, 2: 3, 3: 1}
 PREV = {2: 1, 3: 2, 1: 3}
 R_PC32, R_PLT32, R_GOTPCREL = 2, 4, 9
-FORMS = ["toggle", "pushpop", "invpushpop"]
+FORMS = ["toggle", "pushpop", "invpushpop", "nest-inherit", "nest-inherit-inv", "nest-restore"]
 
 
 # ---------------------------------------------------------------------------------------------
@@ -217,11 +219,31 @@ def member_argv(m):
         for j, r, n in m["occ"]:
             argv += (["--push-state", "--as-needed", lib_token(m, j, n), "--pop-state"] if r
                      else [lib_token(m, j, n)])
-    else:
+    elif form == "invpushpop":
         argv.append("--as-needed")
         for j, r, n in m["occ"]:
             argv += ([lib_token(m, j, n)] if r else
                      ["--push-state", "--no-as-needed", lib_token(m, j, n), "--pop-state"])
+    elif form == "nest-inherit":
+        # nested regions: the inner --push-state must start from the enclosing region's state
+        for j, r, n in m["occ"]:
+            argv += (["--push-state", "--as-needed", "--push-state", lib_token(m, j, n),
+                      "--pop-state", "--pop-state"] if r else [lib_token(m, j, n)])
+    elif form == "nest-inherit-inv":
+        argv.append("--as-needed")
+        for j, r, n in m["occ"]:
+            argv += ([lib_token(m, j, n)] if r else
+                     ["--push-state", "--no-as-needed", "--push-state", lib_token(m, j, n),
+                      "--pop-state", "--pop-state"])
+    elif form == "nest-restore":
+        # the inner region changes the state and pops: the enclosing region's state is back
+        for j, r, n in m["occ"]:
+            argv += (["--push-state", "--as-needed", "--push-state", "--no-as-needed",
+                      "--pop-state", lib_token(m, j, n), "--pop-state"] if r
+                     else ["--push-state", "--push-state", "--as-needed", "--pop-state",
+                           lib_token(m, j, n), "--pop-state"])
+    else:
+        raise ValueError(form)
     return argv
 
 
@@ -425,6 +447,8 @@ def members(tier):
             ms.append(mk("main", "shared", k, occ((3, 2, 1), (1, 0, 1))))
         for k in itertools.product(("none", "strong", "weak"), repeat=3):
             for form in FORMS[1:]:
+                if form.startswith("nest") and "weak" in k:
+                    continue
                 for reg in ((1, 0, 1), (0, 1, 1)):
                     ms.append(mk("forms", "exe", k, occ((1, 2, 3), reg), form))
     small = list(itertools.product(("none", "strong", "weak"), repeat=3))
@@ -530,7 +554,7 @@ def main():
         "distinct_gnu_ld_outcomes": len(stats["ld_outcomes"]),
         "rule": ("thorough: main = kinds^3 (343) x regions (8) x {all 6 orders for exe; orders 123, 321 "
                  "for -shared}; forms = kind triples containing 'none' (127) x regions (8) x "
-                 "{pushpop, invpushpop} x {exe order 123, -shared order 231}; naming = "
+                 "{pushpop, invpushpop, nest-inherit, nest-inherit-inv, nest-restore (depth-2 --push-state)} x {exe order 123, -shared order 231}; naming = "
                  "{none,strong,weak}^3 x {soname by ./path, by -l; no-soname by path, ./path, -l} x "
                  "regions (8) x orders {123, 321}; twice = L1 kind {none,strong,weak,data} x L2 kind "
                  "{none,strong} x 3 mention regions (8) x second mention {path, -l, ./path} x {exe,-shared} x "
@@ -539,7 +563,7 @@ def main():
                  "quick: main = kind triples containing 'none' (127: all pairs of per-library kinds with "
                  "the third library unreferenced, every position) x (regions {111,101,010} x orders "
                  "{123,312,321} + region 000 order 123) for exe, + 2 region/order combinations for -shared; forms = "
-                 "{none,strong,weak}^3 x {pushpop, invpushpop} x regions {101,011}; naming = "
+                 "{none,strong,weak}^3 x {pushpop, invpushpop} x regions {101,011} + {none,strong}^3 x the 3 nested --push-state forms x regions {101,011}; naming = "
                  "{none,strong,weak}^3 x 5 naming/soname combinations x regions {111,010} x order 213; "
                  "twice = as in thorough, soname libraries only") +
                 ". Identical command lines (region forms that coincide) are enumerated once, so "
